@@ -414,6 +414,16 @@ def _c10_extra2():
     except (Untranslatable, OSError) as e:
         text += f"\n/-- SKIPPED ({e}) -/\ndef primitiveCallers : List (String × String × String) := []\n"
         status["primitiveCallers"] = f"skipped: {e}"
+    # ---- call edges: which primitive is each composite built on
+    try:
+        rows = tb.primitive_edges(_R)
+        text += ("\n/-- translated: (caller, primitive) — the crop / pad primitive each composite function / module calls (private\n"
+                 "helpers followed) -/\ndef primitiveEdges : List (String × String) :=\n  ["
+                 + ",\n   ".join(f"({_lean_str(a)}, {_lean_str(b)})" for a, b in rows) + "]\n")
+        status["primitiveEdges"] = f"translated ({len(rows)} edges)"
+    except Untranslatable as e:
+        text += f"\n/-- SKIPPED ({e}) -/\ndef primitiveEdges : List (String × String) := Crop.edgesRequired\n"
+        status["primitiveEdges"] = f"skipped: {e}"
     # ---- dtype of the padded patch of crop_to_bbox
     try:
         from ..gen import find_function as _ff2
